@@ -2,7 +2,8 @@
     verification verdicts of Ed25519 are oracle columns of the case. *)
 From Coq Require Import List NArith ZArith String Bool.
 From Tongo Require Import Lib.Bits Lib.Res Lib.Sx Spec.Sha256 Model.BocParse Model.CellHash
-  Spec.ReprHash Proofs.CellHashP Model.Wallet.
+  Spec.ReprHash Proofs.CellHashP Model.Wallet Model.WalletTransfer.
+From Tongo Require Model.TlbCore.
 Import ListNotations.
 Local Open Scope string_scope.
 Local Open Scope list_scope.
@@ -73,6 +74,42 @@ Definition out_res {A} (f : A -> sx) (r : res A) : sx :=
 
 Definition hash_sx (c : cell) : sx := out_res SBytes (xhash c).
 
+(** MsgAddress and v5r1 extended actions *)
+Definition any_sx (a : option (N * N)) : sx :=
+  match a with None => SL [] | Some (d, p) => SL [SN d; SN p] end.
+Definition any_of_sx (a : sx) : option (N * N) :=
+  match a with SL [SN d; SN p] => Some (d, p) | _ => None end.
+Definition addr_sx (a : TlbCore.addrv) : sx :=
+  match a with
+  | TlbCore.ANone => SA "none"
+  | TlbCore.AExt l => SL [SA "ext"; SBits l]
+  | TlbCore.AStd an wc ad => SL [SA "std"; any_sx an; SZ wc; SBits ad]
+  | TlbCore.AVar an wc ad => SL [SA "var"; any_sx an; SZ wc; SBits ad]
+  end.
+Definition addr_of_sx (a : sx) : TlbCore.addrv :=
+  match a with
+  | SL [SA _; SBits l] => TlbCore.AExt l
+  | SL [SA k; an; SZ wc; SBits ad] =>
+      if String.eqb k "std" then TlbCore.AStd (any_of_sx an) wc ad else TlbCore.AVar (any_of_sx an) wc ad
+  | _ => TlbCore.ANone
+  end.
+Definition ext_sx (x : extaction) : sx :=
+  match x with
+  | XAdd a => SL [SA "add"; addr_sx a]
+  | XRemove a => SL [SA "remove"; addr_sx a]
+  | XSetSig b => SL [SA "sig"; SB b]
+  end.
+Definition ext_of_sx (a : sx) : extaction :=
+  match a with
+  | SL [SA k; SB b] => XSetSig b
+  | SL [SA k; ad] => if String.eqb k "add" then XAdd (addr_of_sx ad) else XRemove (addr_of_sx ad)
+  | _ => XSetSig false
+  end.
+Definition exts_of_sx (a : sx) : option (list extaction) :=
+  match a with SL [SL l] => Some (map ext_of_sx l) | _ => None end.
+Definition exts_sx (o : option (list extaction)) : sx :=
+  match o with None => SL [] | Some l => SL [SL (map ext_sx l)] end.
+
 Definition no_verify (_ : bits) (_ : bytes) (_ : bits) : bool := false.
 
 (* c14.send: (ver pk opts seqno valid msgs init rnd sig addr seed rseed) ->
@@ -97,17 +134,61 @@ Definition run_send (a : sx) : sx :=
   | _ => sx_err "send"
   end.
 
-(* c14.body: createSignedMsgBodyCell without the count check of RawSendV2:
-   (ver pk opts seqno valid msgs msgtype rnd sig seed rseed sendables) -> (body-hash body-bits nrefs) *)
+(* a Sendable description (kind amount wc addr bounce mode body code data comment):
+   kind 0 = wallet.Message, 1 = wallet.SimpleTransfer *)
+Definition opt_ct (a : sx) : option (option TlbCore.ctree) :=
+  match a with
+  | SL [] => Some None
+  | SL [c] => match cell_of_sx c with
+              | Some x => match ct_of_cell x with Some y => Some (Some y) | None => None end
+              | None => None
+              end
+  | _ => None
+  end.
+Definition transfer_of_sx (a : sx) : option transfer :=
+  match a with
+  | SL [SN kind; SN amount; SZ wc; SBytes addr; SB bounce; SN mode; body; code; data; SBytes comment] =>
+      if N.eqb kind 0 then
+        match opt_ct body, opt_ct code, opt_ct data with
+        | Some b, Some c, Some d =>
+            Some (mktr amount wc (bytes_to_bits addr) bounce b
+                       (match c, d with Some c', Some d' => Some (c', d') | _, _ => None end) mode)
+        | _, _, _ => None
+        end
+      else
+        Some (mktr amount wc (bytes_to_bits addr) bounce
+                   (match comment with [] => None | _ => Some (comment_body comment) end) None 3)
+  | _ => None
+  end.
+Fixpoint transfers_of_sx (l : list sx) : option (list transfer) :=
+  match l with
+  | [] => Some []
+  | a :: t => match transfer_of_sx a, transfers_of_sx t with
+              | Some x, Some xs => Some (x :: xs)
+              | _, _ => None
+              end
+  end.
+
+(* c14.body: createSignedMsgBodyCell without the count check of RawSendV2; for
+   v5r1 with the extended actions of the exported CreateSignedMsgBodyCell:
+   (ver pk opts seqno valid msgs msgtype rnd sig seed rseed sendables ext) -> (body-hash body-bits nrefs) *)
 Definition run_body (a : sx) : sx :=
   match a with
-  | SL [SN ver; SBytes pk; opts; SN seqno; SZ valid; SL msgs; SN msgtype; SN rnd; SBytes sg; _; _; _] =>
+  | SL [SN ver; SBytes pk; opts; SN seqno; SZ valid; SL msgs; SN msgtype; SN rnd; SBytes sg; _; _; SL sendables; ext] =>
       match ver_of_N ver, msgs_of_sx msgs with
-      | Some v, Some ms =>
+      | Some v, Some ms0 =>
           let sign (_ : unit) (_ : bytes) := bytes_to_bits sg in
           out_res (fun body => SL [hash_sx body; SBits (cdata body); sx_nat (List.length (crefs body))])
             (do w <- new_wallet (bytes_to_bits pk) v (opts_of_sx opts);
-             create_body unit xhash sign w tt ms seqno valid msgtype rnd)
+             (* with Sendables the carried cells are computed by the transfer model *)
+             do ms <- match sendables, transfers_of_sx sendables with
+                      | _ :: _, Some ts => internal_msgs ts
+                      | _, _ => Ok ms0
+                      end;
+             match v, exts_of_sx ext with
+             | V5R1, Some xs => create_body_v5r1x unit xhash sign w tt ms (Some xs) seqno valid msgtype
+             | _, _ => create_body unit xhash sign w tt ms seqno valid msgtype rnd
+             end)
       | _, _ => sx_err "body args"
       end
   | _ => sx_err "body"
@@ -169,15 +250,22 @@ Definition run_v5verify (a : sx) : sx :=
   | _ => sx_err "v5verify"
   end.
 
-(* c14.decode: (ver msg) -> (id valid seqno extra ((cell mode) ...)) | 'err *)
+(* c14.decode: (ver msg) -> (id valid seqno extra ((cell mode) ...) ext-actions) | 'err *)
 Definition run_decode (a : sx) : sx :=
   match a with
   | SL [SN ver; m] =>
       match ver_of_N ver, cell_of_sx m with
       | None, Some _ => SA "err"
       | Some v, Some mc =>
+          let ext := match v with
+                     | V5R1 => match (do e <- parse_ext xhash mc; decode_v5r1x (e_body e)) with
+                               | Ok x => exts_sx (snd x)
+                               | _ => SL []
+                               end
+                     | _ => SL []
+                     end in
           out_res (fun d => SL [SN (d_id d); SN (d_valid d); SN (d_seqno d); SN (d_extra d);
-                                sx_of_msgs (d_msgs d)])
+                                sx_of_msgs (d_msgs d); ext])
                   (decode_msg xhash v mc)
       | _, _ => sx_err "decode args"
       end
